@@ -1589,6 +1589,14 @@ def re_call(I, name, pattern, flags, args, kwargs, node):
         if isinstance(fam, RX.F1):
             f = any_fold(fam.cls)
             return MatchTruth(mk_bool(f.state((0,), sym_str(s))[0] == 1))
+        if isinstance(fam, RX.F5):
+            # `$` matches at the end and also before a trailing line break
+            se = sym_str(s)
+            n = z3.Length(se)
+            f = any_fold(fam.cls)
+            ends = T.OR(*[z3.Or(z3.And(n > 0, se[n - 1] == a), z3.And(n > 1, se[n - 1] == 10, se[n - 2] == a))
+                          for a in fam.end_lits])
+            return MatchTruth(mk_bool(z3.Or(f.state((0,), se)[0] == 1, ends)))
         raise _oos('re.search with family %s' % type(fam).__name__, node)
     if name == 'sub':
         repl, s = args[0], args[1]
